@@ -154,7 +154,7 @@ def transformed_mapping_matrix_via_preload_jit_from(
         for image_1d_index in range(mapping_matrix.shape[0]):
             value = mapping_matrix[image_1d_index, pixel_1d_index]
 
-            if value > 0:
+            if value != 0:
                 for vis_1d_index in range(preloaded_reals.shape[1]):
                     vis_real = value * preloaded_reals[image_1d_index, vis_1d_index]
                     vis_imag = value * preloaded_imags[image_1d_index, vis_1d_index]
@@ -175,7 +175,7 @@ def transformed_mapping_matrix_jit(mapping_matrix, grid_radians, uv_wavelengths)
         for image_1d_index in range(mapping_matrix.shape[0]):
             value = mapping_matrix[image_1d_index, pixel_1d_index]
 
-            if value > 0:
+            if value != 0:
                 for vis_1d_index in range(uv_wavelengths.shape[0]):
                     vis_real = value * np.cos(
                         -2.0
